@@ -5,11 +5,40 @@ import json, os
 ROOT = os.path.dirname(os.path.abspath(__file__))
 
 # id -> (technique, level text, level note, design ref)
+RAPID = "property-based testing (pgregory.net/rapid): "
 CHECKS = {
- "C02": ("property-based testing (rapid): generated schema x input x mode, multiset comparison of issues against an executable specification",
-         "Generated-input search: random schema trees (all node kinds, modifiers, tests, nesting) with inputs derived from per-leaf witnesses and perturbed (absent forms, neighbours, un-coercible junk), each executed several times so that different field visit orders occur; the returned issues must equal, as a multiset of (path, code, type), the issues computed by an independent executable specification, and nil-ness must agree. Exploration only: it shows the absence of counter-examples within the generated bounds, not for all schemas.",
+ "C01": (RAPID + "generated schema x input x mode; successful results re-validated by independent reference predicates",
+         "Generated-input search over random schema trees and mostly-valid inputs in both modes, each executed several times (different field visit orders). Whenever zog reports no issues the destination is walked with reference predicates: every present node must satisfy every declared test, every Required/NotNil node must have had a value; only the documented exemptions (absent optional, caught) are allowed. One-directional by statement. Exploration within the generated bounds.",
+         "Trusts model/preds.go (reference predicates) and the documented absent rule; no PostTransforms in these cases.",
+         "DESIGN.md section 5 C01"),
+ "C02": (RAPID + "generated schema x input x mode; multiset comparison of issues against an executable specification",
+         "Generated-input search: random schema trees (all node kinds, modifiers, tests, nesting) with inputs derived from per-leaf witnesses and perturbed (absent forms, neighbours, un-coercible junk), each executed several times so that different field visit orders occur; the returned issues must equal, as a multiset of (path, code, type), the issues computed by an independent executable specification, and nil-ness must agree. Exploration only: absence of counter-examples within the generated bounds.",
          "Trusts the harness specification (model/spec.go, model/preds.go), written from the documentation; cases whose coercion the documentation leaves open are skipped and counted; PostTransforms never fail in these cases.",
          "DESIGN.md section 5 C02"),
+ "C03": (RAPID + "representation matrix x schema options; whole-destination comparison with the documented coercion table over sentinel-prefilled destinations",
+         "Generated inputs in every documented equivalent representation, WithCoercer, Time.Format layouts and global conf.Coercers overrides; destinations (generated with reflect.StructOf, including fields the schema does not name and non-nil pointers/slices) are pre-filled with sentinels; on success the whole destination must equal the specification's, and documented conversions must succeed. Exploration.",
+         "Trusts the coercion table in model/spec.go (from the docs); out-of-range numerics are left to C18; doc-silent representations are skipped and counted.",
+         "DESIGN.md section 5 C03"),
+ "C04": ("exhaustive enumeration of the absence decision table + " + RAPID + "random compositions",
+         "The finite decision table node kind x modifiers x input class x mode x placement is enumerated completely (about 8000 cells), observing required/not_nil issues, the sentinel-prefilled destination and how often each node's recorder test ran; random absence-heavy compositions extend it to deeper nestings. Exhaustive for the table, exploration beyond.",
+         "Expectation computed by the executable specification of the statement's table; cells whose coercion is undocumented are skipped and counted.",
+         "DESIGN.md section 5 C04"),
+ "C05": (RAPID + "direct oracle + metamorphic comparison with the catch-free twin schema",
+         "Schemas with catching primitives at random places; (a) no issue at a catching node's path and its destination equals the catch value iff its own pipeline fails (specification), (b) metamorphic non-interference: the same schema without Catch must produce the same issues away from the catching nodes and the same values away from them. Both modes, several runs per case. Exploration.",
+         "No PostTransforms; struct/slice-level tests are data-independent in these cases so that the twin is comparable.",
+         "DESIGN.md section 5 C05"),
+ "C09": (RAPID + "metamorphic: permuted schema/input insertion orders x repeated runs must agree; visit orders observed",
+         "Each case is built K times with permuted field insertion order and input-map insertion order and run R times; all runs must agree on issues (path, code, type, message), issue-map keys and, on success, the destination; $first must be one of the issues. The visit orders actually taken are observed through recorder tests and reported. Exploration; order coverage is measured, not assumed.",
+         "Relies on Go's map iteration randomisation plus insertion-order forcing; excludes constructs that are order-dependent by the documented global PostTransform gating.",
+         "DESIGN.md section 5 C09"),
+ "C18": ("exhaustive boundary product + " + RAPID + "random magnitudes; exact big-number oracle",
+         "Destination width x source representation x boundary magnitudes enumerated completely, plus random values; the outcome must be a coerce issue or the exact (truncated / correctly rounded) number, decided with math/big. Exhaustive over the listed boundary sets, exploration beyond.",
+         "Rounding to nearest on float narrowing is accepted as the same number; strings outside plain decimal/exponent syntax are only checked when rejected or exactly modelled.",
+         "DESIGN.md section 5 C18"),
+ "C20": ("exhaustive sweeps over small alphabets/ranges + " + RAPID + "random strings and grammar-derived subjects; independent reference predicates",
+         "Single-test schemas in both modes: rune-class tests over every rune U+0000..U+02FF and class-edge pairs, length tests over n x byte-length grid, numeric comparisons over all pairs of boundary sets (incl. NaN, Inf, -0), slice and time tests, random prefix/suffix/contains/oneof/match, and Email/UUID/URL over generated grammar members and single-edit near misses; issue present iff the reference predicate is false. Exhaustive for the sweeps, exploration for the random parts.",
+         "Reference predicates in model/preds.go (hand-written recognisers, not regexes shared with zog); URL only over the certain classes; UUID version nibble not asserted.",
+         "DESIGN.md section 5 C20"),
 }
 
 NOT_YET = "check not built yet in this round (planned, see DESIGN.md section 9)"
